@@ -4,6 +4,14 @@
 From AsconV Require Import Model.Sponge.
 Local Open Scope nat_scope.
 
+Lemma xor_at_len s off d : length (xor_at s off d) = length s.
+Proof.
+  revert off d; induction s as [|x s IH]; intros off d; [reflexivity|].
+  destruct off as [|o]; cbn [xor_at].
+  - destruct d as [|y d]; [reflexivity|]. cbn. now rewrite IH.
+  - cbn. now rewrite IH.
+Qed.
+
 Section DuplexP.
 Variable bf : bytefn.
 Variable f : bytes -> bytes.
@@ -258,6 +266,24 @@ Proof.
   rewrite serial_short by lia. cbn [fst snd Nat.add].
   destruct (upd_at bf s1 0 (skipn (q * rate) m)) as [s2 o2]. cbn [fst snd].
   rewrite Hsk. split; reflexivity.
+Qed.
+
+
+(* the C routine from an aligned state, in terms of the specification *)
+Theorem duplex_c_spec_gen st m : length st = slen ->
+  let '((s1, pos), o) := duplex_c bf f rate (st, 0) m in
+  pos = length m mod rate /\ (xor_at s1 pos [0x80%N], o) = spec_duplex bf f rate st m.
+Proof.
+  intros Hl. rewrite duplex_c_serial by auto. now apply serial_spec.
+Qed.
+
+Lemma spec_duplex_outlen st m : length st = slen ->
+  length (snd (spec_duplex bf f rate st m)) = length m /\ length (fst (spec_duplex bf f rate st m)) = slen.
+Proof.
+  intros Hl. pose proof (serial_spec st m Hl) as S.
+  pose proof (serial_inv st 0 m rate_pos Hl) as [_ [I2 [I3 _]]].
+  destruct (serial bf f rate (st, 0) m) as [[s1 pos] o]. cbn [fst snd] in *.
+  destruct S as [_ S]. rewrite <- S. cbn [fst snd]. split; [exact I3|]. now rewrite xor_at_len.
 Qed.
 
 End DuplexP.
